@@ -665,6 +665,39 @@ class World(object):
             lambda t: len(t),
         )
 
+    def op_peek(self, ref, which, spec=None):
+        """Read-only accessors of a record (must leave no observable trace)."""
+        r = self.rec(ref)
+        name = None if spec is None else self.name(spec)
+
+        def thunk():
+            if which == "label":
+                return repr(r.label)
+            if which == "value":
+                return len(r.value)
+            if which == "types":
+                return len(r.get_asserted_types())
+            if which == "attribute":
+                return len(r.get_attribute(name))
+            if which == "args":
+                return len(r.args)
+            if which == "formal":
+                return len(r.formal_attributes)
+            if which == "extra":
+                return len(r.extra_attributes)
+            if which == "repr":
+                return len(repr(r))
+            if which == "str":
+                return len(str(r))
+            if which == "times":
+                return [getattr(r, "get_startTime", lambda: None)() is None,
+                        getattr(r, "get_endTime", lambda: None)() is None]
+            if which == "hash":
+                return hash(r) == hash(r)
+            raise ValueError(which)
+
+        return self._call(thunk, lambda x: x if not isinstance(x, str) else len(x))
+
     def op_records_list(self, ch):
         c = self.cont(ch)
 
